@@ -13,11 +13,28 @@ import time
 from . import env
 
 
+def seeded_mutants(ids):
+    """the seeded changes of /verif/seeded (patch files) as selftest entries: ./vf selftest seeded [IDs]"""
+    import glob
+    out = []
+    for d in sorted(glob.glob(os.path.join(env.HOME, "seeded", "*", "meta.json"))):
+        m = json.load(open(d))
+        if ids and m["id"] not in ids and m["property"] not in ids:
+            continue
+        out.append({"id": "seeded:" + m["id"], "check": m["property"], "what": m["needs_to_manifest"][:90],
+                    "expect": "detected", "patch": os.path.join(os.path.dirname(d), "patch.diff")})
+    return out
+
+
 def main(ids):
-    with open(os.path.join(env.HOME, "mutants", "mutants.json")) as f:
-        muts = json.load(f)["mutants"]
-    if ids:
-        muts = [m for m in muts if m["id"] in ids or m["check"] in ids]
+    if ids and ids[0] == "seeded":
+        muts = seeded_mutants(ids[1:])
+        ids = ids or ["seeded"]
+    else:
+        with open(os.path.join(env.HOME, "mutants", "mutants.json")) as f:
+            muts = json.load(f)["mutants"]
+        if ids:
+            muts = [m for m in muts if m["id"] in ids or m["check"] in ids]
     results = []
     bad = 0
     for m in muts:
@@ -26,13 +43,22 @@ def main(ids):
             shutil.copytree(os.path.join(env.REPO, "middleware"), os.path.join(scratch, "middleware"))
             os.symlink(os.path.join(env.REPO, "firmware"), os.path.join(scratch, "firmware"))
             os.symlink(os.path.join(env.REPO, "docs"), os.path.join(scratch, "docs"))
-            p = os.path.join(scratch, "middleware", m["file"])
-            s = open(p).read()
-            n = len(re.findall(m["pattern"], s, flags=re.M))
+            if "patch" in m and any(not l[6:].startswith("middleware/") for l in open(m["patch"])
+                                    if l.startswith("+++ b/")):
+                n = 0       # only the copied middleware/ may be patched (firmware/ and docs/ are links)
+            elif "patch" in m:
+                pr = subprocess.run(["patch", "-p1", "-s", "--fuzz=3", "-i", m["patch"]], cwd=scratch,
+                                    capture_output=True, text=True)
+                n = 1 if pr.returncode == 0 else 0
+            else:
+                p = os.path.join(scratch, "middleware", m["file"])
+                s = open(p).read()
+                n = len(re.findall(m["pattern"], s, flags=re.M))
             if n == 0:
                 res = "DID-NOT-APPLY"
             else:
-                open(p, "w").write(re.sub(m["pattern"], m["replacement"].replace("\\", "\\\\").replace("\\\\n", "\n") if False else m["replacement"], s, count=1, flags=re.M))
+                if "patch" not in m:
+                    open(p, "w").write(re.sub(m["pattern"], m["replacement"].replace("\\", "\\\\").replace("\\\\n", "\n") if False else m["replacement"], s, count=1, flags=re.M))
                 t0 = time.time()
                 envp = dict(os.environ, VERIF_REPO=scratch)
                 r = subprocess.run([os.path.join(env.HOME, "vf"), "check", m["check"], "--tier", "quick", "--quiet"],
